@@ -140,9 +140,14 @@ class Builder:
             f, fdt, fshape, full = fmt_shape_dtype(spec, oriented)
             ff = mk_fmt(f, arr.dtype)
             if k == 'array':
+                # reverse_axes is a collection of axes: naming an axis twice (flags gathered from independent sources) or in any order
+                # means the same as naming it once.  For half of the reversed array leaves the argument carries a repeated axis, unsorted
+                rev_arg = rev
+                if rev and (int(spec.get('base', 0)) // 10000 + len(rev) + sum(arr.shape)) % 2 == 0:
+                    rev_arg = list(rev)[::-1] + [rev[0]]
                 seg = NumpyArraySegment(store if self.mode == 'w' else arr.copy(), formatted_dtype=fdt,
                                         formatted_shape=tuple(fshape),
-                                        reverse_axes=rev, transpose_axes=trans, format_function=ff, mode=self.mode)
+                                        reverse_axes=rev_arg, transpose_axes=trans, format_function=ff, mode=self.mode)
                 self.leaves.append((spec, seg.underlying_array))
             elif k == 'memmap':
                 path = os.path.join(self.tmpdir, f'leaf{len(self.files)}.bin')
